@@ -4922,9 +4922,9 @@ class PyCdlib:
         # The directory is added one namespace after the other.  Resolve the
         # Joliet and UDF destinations up front, so that a name or a parent that
         # is refused there is reported while nothing has been added yet.
-        if joliet_path:
+        if joliet_path is not None:
             self._joliet_name_and_parent_from_path(self._normalize_joliet_path(joliet_path))
-        if udf_path:
+        if udf_path is not None:
             if self.udf_root is None:
                 raise pycdlibexception.PyCdlibInvalidInput('Can only specify a UDF path for a UDF ISO')
             self._udf_name_and_parent_from_path(utils.normpath(udf_path))
